@@ -1368,17 +1368,18 @@ Definition inst_fails (f76 : bool) (c : case) (outs : list symt) (i : inst) : bo
                   negb (claims_all_x (f76 && is_skipln c) (env_of_list (i_env i)) outs couts)
   | None => false
   end.
-(* f5: also exclude Equal (used only while SymExpr::range is unfixed on the tree under check) *)
-Definition prop_ok_excl_gen (f5 : bool) (c : case) : bool :=
+(* k..: which classes are recorded as KNOWN (status "known" in known_findings.json); a class
+   that is not recorded is not excluded *)
+Definition prop_ok_excl_k (k70 k73 k75 k76 k78 k5 : bool) (c : case) : bool :=
   match c_res c with
   | IOk outs =>
-      forallb (fun i => negb (inst_fails true c outs i) ||
-                        kn_F70 c outs i || kn_F73 c outs i || kn_F75 c outs i || kn_F78 c outs i ||
-                        (f5 && kn_F5 c outs i)) (c_insts c)
+      forallb (fun i => negb (inst_fails k76 c outs i) ||
+                        (k70 && kn_F70 c outs i) || (k73 && kn_F73 c outs i) || (k75 && kn_F75 c outs i) ||
+                        (k78 && kn_F78 c outs i) || (k5 && kn_F5 c outs i)) (c_insts c)
   | _ => true
   end.
-Definition prop_ok_excl := prop_ok_excl_gen false.
-Definition prop_ok_excl_f5 := prop_ok_excl_gen true.
+Definition prop_ok_excl := prop_ok_excl_k true true true true true false.
+Definition prop_ok_excl_f5 := prop_ok_excl_k true true true true true true.
 (* hit_X c = false  <->  some failing instantiation of c is in class X (for the report) *)
 Definition nohit (k : case -> list symt -> inst -> bool) (c : case) : bool :=
   match c_res c with
